@@ -101,6 +101,13 @@ prop("C15",
      [fam("evict","H",2500), fam("evict","L",2500), fam("mix","H",1500), fam("mix","L",1500)],
      [fam("evict","H",60000), fam("evict","L",60000), fam("mix","H",40000), fam("mix","L",40000), fam("dfs-evict","L",200000)])
 
+
+prop("C05",
+     ["C05_guard_ops_refine_map", "C05_guard_ops_enabled", "C05_lock_free_key", "C05_variants_interchangeable", "C05_try_fails_when_locked", "C05_witness"],
+     ["C02.", "C04.", "C12.", "C05."],
+     [fam("seq","H",3000), fam("seq","L",3000), fam("nocancel","H",1500), fam("nocancel","L",1500)],
+     [fam("seq","H",100000), fam("seq","L",100000), fam("nocancel","H",40000), fam("nocancel","L",40000), fam("mix","H",20000)])
+
 plan = dict(allowed_axioms=[], trusted_base=TRUSTED, assumptions=ASSUME, properties=P)
 json.dump(plan, open(os.path.join(ROOT, "plan.json"), "w"), indent=1)
 
@@ -111,6 +118,7 @@ TEXT = {
  "C04": "Theorem: in every reachable model state the key set equals valued keys + keys with a live guard + keys some in-flight call holds a handle on; quiescent => exactly the valued keys; count/keys report that set. Co-simulation compares the key set and replica counts after every atomic segment; monitor recomputes the expected set from the harness' own bookkeeping.",
  "C12": "Theorem: in a reachable quiescent state into_entries_unordered is enabled, does not panic and returns exactly one pair per valued key with the stored value; co-simulation + multiset monitor on runs that end with consume.",
  "C03": "PARTIAL (protocol level). Theorems: every in-flight call that is not waiting for a per-key mutex is enabled in every reachable state; free/absent keys are acquired without waiting; a free mutex has no waiters; release hands the key to the oldest waiter; a handed waiter can run; waiters are never detached; if nobody can move, every waiter waits for a client-owned guard. Co-simulation compares the implementation's set of blocked agents with the model's after every segment (lost wake-ups show as a mismatch); watchdog/self-deadlock detection in the harness. Not shown: that the runtime delivers wake-ups in finite time.",
+ "C05": "Theorems: every guard operation returns and stores what the plain map would and touches nothing else; a lock call of any shape run to completion on a free key returns a guard with the map's value and a state that does not depend on the shape (variants interchangeable); a try on a locked/reserved key returns None and changes nothing a map + locked set can see. Co-simulation on single-threaded histories (family seq: every call runs to completion, all eight variants incl. borrowed/owned chosen per call) compares every return value with the model; shadow-map monitor.",
  "C06": "Theorems: cancelling a pending async_lock (queued or handed) or dropping any pending per-entry future of a stream is always enabled, panics never, removes the call, reserves nothing, changes no value/guard and re-establishes the invariant; quiescent states contain exactly the valued keys. Co-simulation over exhaustive interleavings of cancel points x the other party's steps; monitors for leaked keys, panics and consume.",
  "C07": "Theorems: the callback is invoked only by a soft-limited call when len >= N, with a non-empty list of at most len-(N-1) distinct, previously unlocked, valued entries (exactly the first ones in iteration order), each now held by the offered guard and reported with its stored value; none without a limit or below it; when the call proceeds the container has at most max(N, non-evictable+1) entries. Co-simulation + callback-argument monitor. The multi-round termination with a cooperative callback is exercised, not proved.",
  "C08": "PARTIAL (protocol level, like C03). Theorems: nothing evictable => proceeds without callback; the eviction step is always enabled; in the callback the call holds no handle and new (re-entrant) calls can start; a callback error ends the call with that error and leaves nothing. Harness: BeforeCallback hook asserts the global lock is not held; DFS over two soft-limited lockers.",
